@@ -1389,7 +1389,22 @@ func (z *Decimal) Sub(x, y *Decimal) *Decimal {
 
 	// ±0 - y
 	// x - ±Inf
-	return z.Neg(y)
+	// Like z.Neg(y), but the sign must be set before rounding since it
+	// affects ToNegativeInf and ToPositiveInf.
+	yneg, yprec := y.neg, y.prec
+	z.acc = Exact
+	if z != y {
+		z.form = y.form
+		if y.form == finite {
+			z.exp = y.exp
+			z.mant = z.mant.set(y.mant)
+		}
+	}
+	z.neg = !yneg
+	if z.prec < yprec {
+		z.round(0)
+	}
+	return z
 }
 
 // Uint64 returns the unsigned integer resulting from truncating x
